@@ -36,13 +36,16 @@ Definition dec_qevent (n : N) : option qevent :=
   match n with
   | 1 => Some QStart | 2 => Some QPushFut | 3 => Some QPush | 4 => Some QItemSettle
   | 5 => Some QFinish | 6 => Some QFail | 7 => Some QAbort | 8 => Some QTick | 9 => Some QFailCancelled
+  | 10 => Some QDrain
   | _ => None
   end.
 
 Definition enc_q (s : qstate) : list N :=
   [bn (q_aborted s); bn (q_finished s);
    match q_prod s with PNone => 0 | PDone => 2 | _ => 1 end;
-   of_nat (q_pending s); of_nat (q_cb_calls s)].
+   of_nat (q_pending s); of_nat (q_cb_calls s);
+   match q_prod s with PNone => 0 | PRun => 1 | PBlocked => 2 | PFailWait => 3 | PParked => 4 | PDone => 5 end;
+   bn (q_consuming s); of_nat (q_entries s)].
 
 Fixpoint run_queue (c : qconf) (s : qstate) (es : list N) : list N :=
   match es with
@@ -123,11 +126,11 @@ Definition run (inp : list N) : list N :=
   match inp with
   | 1 :: hascb :: cbasync :: es =>
       run_comp {| has_on_abort := nb hascb; on_abort_async := nb cbasync |} cinit es
-  | 2 :: eager :: hascb :: cbasync :: es =>
-      let c := {| q_eager := nb eager; q_has_cb := nb hascb; q_cb_async := nb cbasync |} in
+  | 2 :: eager :: hascb :: cbasync :: cap :: es =>
+      let c := {| q_eager := nb eager; q_has_cb := nb hascb; q_cb_async := nb cbasync; q_cap := N.to_nat cap |} in
       run_queue c (qinit c) es
-  | 6 :: eager :: hascb :: cbasync :: es =>
-      let c := {| q_eager := nb eager; q_has_cb := nb hascb; q_cb_async := nb cbasync |} in
+  | 6 :: eager :: hascb :: cbasync :: cap :: es =>
+      let c := {| q_eager := nb eager; q_has_cb := nb hascb; q_cb_async := nb cbasync; q_cap := N.to_nat cap |} in
       run_queue_nd c [qinit c] es
   | 3 :: es => haccept hinit 0 es
   | 4 :: es => run_aclosing ainit es
